@@ -4,6 +4,7 @@ import (
 	"fmt"
 	"math"
 	"path"
+	"sort"
 	"strconv"
 	"strings"
 
@@ -31,6 +32,9 @@ type SemOpts struct {
 	Off map[string]bool
 	// Bias
 	ManyTypes bool
+	// DupLiterals: set literals may repeat an item (legal for a set; used where
+	// only determinism / termination matter)
+	DupLiterals bool
 	// PkgNameClash: file base names equal to packages the generated code imports
 	PkgNameClash bool
 }
@@ -60,6 +64,7 @@ type semGen struct {
 	// value contains struct literals (see defaultOK)
 	noStructRefs bool
 	curFile      *File
+	seq          int
 }
 
 func (g *semGen) name(prefix string) string {
@@ -86,7 +91,7 @@ func GenProgram(r *core.Rand, o SemOpts) *Program {
 		d := dirs[r.Intn(len(dirs))]
 		base := g.name("m")
 		if o.PkgNameClash && r.Chance(1, 3) {
-			base = []string{"fmt", "wire", "stream", "errors", "strings", "bytes", "base64", "math", "strconv", "zapcore", "multierr", "thriftreflect", "ptr", "json", "binary"}[r.Intn(15)]
+			base = []string{"fmt", "wire", "stream", "errors", "strings", "bytes", "base64", "math", "strconv", "zapcore", "multierr", "thriftreflect", "ptr", "json", "binary", "v2", "v3", "v2", "v3"}[r.Intn(19)]
 			for _, f := range g.p.Files {
 				if f.ModuleName() == base {
 					base = g.name("m")
@@ -182,6 +187,7 @@ func GenProgram(r *core.Rand, o SemOpts) *Program {
 			g.declare(f, d)
 		}
 	}
+	sort.SliceStable(g.all, func(a, b int) bool { return g.all[a].rank < g.all[b].rank })
 	// pass 2: bodies, in rank order so that "lower rank" bodies exist when
 	// values of them are needed (constants, defaults)
 	for _, di := range g.all {
@@ -333,8 +339,19 @@ func relPath(fromDir, to string) string {
 	return strings.Join(parts, "/")
 }
 
+// declare registers a definition. rank orders definitions so that everything
+// "earlier" may be referenced without creating cycles: definitions of files
+// with a higher index (the included side of the acyclic include skeleton) come
+// first, then declaration order within a file.
 func (g *semGen) declare(f *File, d Def) {
-	di := &defInfo{file: f, def: d, rank: len(g.all)}
+	fi := 0
+	for k, pf := range g.p.Files {
+		if pf == f {
+			fi = k
+		}
+	}
+	g.seq++
+	di := &defInfo{file: f, def: d, rank: (len(g.p.Files)-1-fi)*100000 + g.seq}
 	g.all = append(g.all, di)
 	g.byFile[f] = append(g.byFile[f], di)
 	g.rank[d] = di.rank
@@ -854,7 +871,7 @@ func (g *semGen) constFor(f *File, t *TypeRef, maxConstRank int, depth int) *Con
 		for i := 0; i < n; i++ {
 			it := g.constFor(f, rt.Elem, maxConstRank, depth-1)
 			k := LKey(Eval(it, rt.Elem))
-			if seen[k] {
+			if seen[k] && !(g.o.DupLiterals && rt.Elem.Root().Kind == TBase) {
 				continue
 			}
 			seen[k] = true
